@@ -76,8 +76,14 @@ func vhSameProof(a, b Proof, withDLEQ bool) bool {
 
 // C14 (b): building a V3 / V4 token from arbitrary proofs, serialising it and decoding the string gives back the mint URL,
 // the same proofs (V4 groups them by keyset id: compared as a multiset) and the amount; DLEQ complete when requested.
-func VHarnessTokenRoundTrip() {
-	n := v.Int("nProofs", 0, 2)
+func VHarnessTokenRoundTrip()  { vhTokenRoundTrip(2) }
+func VHarnessTokenRoundTrip3() { vhTokenRoundTrip(3) }
+
+func vhTokenRoundTrip(maxN int) {
+	n := v.Int("nProofs", 0, maxN)
+	if maxN > 2 {
+		v.Assume(n == maxN) // the smaller sizes are the other harness
+	}
 	proofs := make(Proofs, n)
 	for i := range proofs {
 		proofs[i] = vhTokProof("p" + string(rune('0'+i)))
@@ -128,6 +134,12 @@ func VHarnessTokenRoundTrip() {
 			v.Assert(v.Or(v.And(vhSameProof(orig[0], got[0], includeDLEQ), vhSameProof(orig[1], got[1], includeDLEQ)),
 				v.And(vhSameProof(orig[0], got[1], includeDLEQ), vhSameProof(orig[1], got[0], includeDLEQ))),
 				"C14 the decoded proofs equal the originals (amount, id, secret, C, witness, DLEQ when requested)")
+		case 3:
+			any := false
+			for _, pm := range [][3]int{{0, 1, 2}, {0, 2, 1}, {1, 0, 2}, {1, 2, 0}, {2, 0, 1}, {2, 1, 0}} {
+				any = v.Or(any, v.And(vhSameProof(orig[0], got[pm[0]], includeDLEQ), vhSameProof(orig[1], got[pm[1]], includeDLEQ), vhSameProof(orig[2], got[pm[2]], includeDLEQ)))
+			}
+			v.Assert(any, "C14 the decoded proofs equal the originals as a multiset (amount, id, secret, C, witness, DLEQ when requested)")
 		}
 	}
 	sum := uint64(0)
